@@ -107,11 +107,75 @@ def run(ctx):
                 ctx.violation(dict(sig0, clause="subquery-spurious-answer"), "[%s] %s returned by subquery\n%s" % (kind, name, t), case)
         if len(ctx.samples) < 2:
             ctx.sample({"text": t, "tlc_expected": j["expected"], "tlc_den": j["den"], "impl": r["answers"]})
+    nontriv += combined(ctx, base)
     ctx.write_evidence("exploration", {
         "evaluations": ctx.evaluations, "distinct_nontrivial": nontriv,
         "rule": "generated programs (C01 fragment); every query becomes a deterministic wrapper rule calling subquery/2, and "
-                "subquery/3 with the program's evidence as the evidence list; non-trivial = program with >= 1 judged instance",
+                "subquery/3 with the program's evidence as the evidence list; additionally both kinds of wrapper in ONE program, in either "
+                "query order (one subquery must not see the evidence or queries of another); non-trivial = program with >= 1 judged instance",
         "programs": len(P)}, assumptions=["subquery with an impossible evidence list is not judged"])
+
+
+def combined(ctx, base):
+    """subquery/3 (with evidence) and subquery/2 wrappers for the same goals in one program, in both query orders"""
+    todo = []
+    for p in base:
+        if not p["evidence"] or not p["queries"]:
+            continue
+        ground_q = [a for a in p["queries"] if not progs.atom_vars(a)]
+        if not ground_q:
+            continue
+        q = copy.deepcopy(p)
+        q.pop("order", None)
+        q["queries"], q["evidence"] = [], []
+        t = progs.render(q)
+        evl = ",".join((progs.r_atom(e["atom"]) if e["s"] == 1 else "\\+" + progs.r_atom(e["atom"])) for e in p["evidence"])
+        rules, qc, qp = [], [], []
+        for i, a in enumerate(ground_q):
+            rules.append("cq%d(P) :- subquery(%s, P, [%s])." % (i, progs.r_atom(a), evl))
+            rules.append("pq%d(P) :- subquery(%s, P)." % (i, progs.r_atom(a)))
+            qc.append("query(cq%d(_))." % i)
+            qp.append("query(pq%d(_))." % i)
+        for order, ql in (("cond-first", qc + qp), ("plain-first", qp + qc)):
+            todo.append((p, ground_q, order, t + "\n".join(rules + ql) + "\n"))
+    if not todo:
+        return 0
+    plain = []
+    for p, gq, order, t in todo:
+        p0 = copy.deepcopy(p)
+        p0["evidence"] = []
+        plain.append(p0)
+    JC = semcheck.judge([p for p, _, _, _ in todo], nproc=ctx.nproc)
+    JP = semcheck.judge(plain, nproc=ctx.nproc)
+    runs = pl.run_jobs([("prob", {"text": t}) for _, _, _, t in todo], nproc=ctx.nproc, timeout=60)
+    n = 0
+    for (p, gq, order, t), jc, jp, r in zip(todo, JC, JP, runs):
+        ctx.evaluations += 1
+        if r.get("inconclusive") or r.get("error"):
+            continue            # errors are reported by the single-wrapper runs above
+        if not jc["mustAnswer"] or jc["undefPreds"] or jc["den"] == 0 or not jp["mustAnswer"]:
+            continue
+        n += 1
+        ec, ep = semcheck.expected_table(jc), semcheck.expected_table(jp)
+        sig0 = {"variant": "combined:" + order}
+        sig0.update(semcheck.triggers(p))
+        case = {"kind": "sem", "program": p, "variant": "combined:" + order, "kwargs": {"text": t}, "run": r}
+        for name, val in r["answers"].items():
+            m = re.match(r"^([cp])q(\d+)\((.*)\)$", name)
+            if not m or val < 0.5:
+                continue
+            try:
+                pv = float(m.group(3))
+            except ValueError:
+                continue
+            a = gq[int(m.group(2))]
+            gname = progs.r_ground(a["f"], [x["v"] for x in a["a"]])
+            exp, den, what = (ec, jc["den"], "subquery/3") if m.group(1) == "c" else (ep, jp["den"], "subquery/2")
+            if gname in exp and not close(pv, exp[gname], den, 1e-8):
+                ctx.violation(dict(sig0, clause="subquery-prob"),
+                              "[%s in a program that also calls the other kind, %s] %s: bound P = %r, expected %d/%d\n%s" % (
+                                  what, order, gname, pv, exp[gname], den, t), case)
+    return n
 
 
 def replay(ctx, path):
